@@ -118,6 +118,9 @@ class Path:
         self.memo = {}
         self.dropped = set()
         self.obs_log = []
+        self.snapshots = []
+        self.materializing = 0
+        self.late_cells = []
 
     # naming: deterministic per path so that re-execution recreates the same terms
     def name(self, base):
@@ -213,7 +216,20 @@ class Path:
         a = self.next_addr
         self.next_addr += 1
         self.heap[a] = cell
+        if self.materializing:
+            # lazily materialised symbolic state conceptually existed all along: it is part
+            # of every snapshot taken so far
+            self.late_cells.append(a)
         return a
 
     def snapshot(self):
-        return {a: c.copy() for a, c in self.heap.items()}
+        snap = {a: c.copy() for a, c in self.heap.items()}
+        self.snapshots.append(snap)
+        return snap
+
+    def end_materialize(self):
+        for a in self.late_cells:
+            for snap in self.snapshots:
+                if a not in snap:
+                    snap[a] = self.heap[a].copy()
+        self.late_cells = []
